@@ -133,7 +133,7 @@ func runDeep(c *kit.Ctx, id string) {
 	c.Evals(tr.checks + 3)
 	c.Count("deep_recursion_runs", 1)
 	c.Count("deep_frames_entered", tr.cnt["frames_entered"])
-	c.Max("deep_max_depth_observed", int64(tr.maxDepth))
+	c.Max("max_deep_recursion_depth_observed", int64(tr.maxDepth))
 	// the depth limit itself is not this property's subject: the refused frame is the one after the
 	// deepest frame the tracer saw
 	if dobs := tr.maxDepth; !(k >= 1 && k <= dobs) && ops[oi] != 0xfa && dobs >= 2 {
